@@ -1,4 +1,4 @@
-package main
+package c13
 
 import (
 	"bytes"
@@ -6,6 +6,8 @@ import (
 	_ "crypto/sha256"
 	"errors"
 	"fmt"
+	_ "github.com/sassoftware/relic/v8/verifharness/allsigners"
+	"github.com/sassoftware/relic/v8/verifharness/core"
 	"io"
 	"os"
 	"path/filepath"
@@ -34,17 +36,17 @@ func (f *failingReader) Read(p []byte) (int, error) {
 // <dir>/in.bin (input) and optionally <dir>/out.bin (old destination) beforehand and inspects the directory afterwards.
 // Everything runs on the locked main thread so that strace's per-thread syscall counter is deterministic.
 func init() {
-	commands["c13op"] = func(c *ctx) error {
+	core.Commands["c13op"] = func(c *core.Ctx) error {
 		runtime.LockOSThread()
-		if len(c.args) < 2 {
+		if len(c.Args) < 2 {
 			return errors.New("usage: c13op <strategy> <dir> [fail]")
 		}
-		strategy, dir := c.args[0], c.args[1]
-		fail := len(c.args) > 2 && c.args[2] == "fail"
+		strategy, dir := c.Args[0], c.Args[1]
+		fail := len(c.Args) > 2 && c.Args[2] == "fail"
 		in := filepath.Join(dir, "in.bin")
 		dest := filepath.Join(dir, "out.bin")
 		payload := bytes.Repeat([]byte("NEW-CONTENT-0123456789abcdef\n"), 4000) // ~116 KB: several write calls
-		var result io.Reader = struct{ io.Reader }{bytes.NewReader(payload)} // no WriterTo: several write calls
+		var result io.Reader = struct{ io.Reader }{bytes.NewReader(payload)}    // no WriterTo: several write calls
 		if fail {
 			result = &failingReader{data: payload[:50000]}
 		}
